@@ -6,6 +6,11 @@ package main
 import (
 	"context"
 	"fmt"
+	"math/rand"
+
+	"github.com/cosmos/cosmos-sdk/baseapp"
+	"github.com/cosmos/cosmos-sdk/types/query"
+	gogotypes "github.com/cosmos/gogoproto/types"
 
 	sdk "github.com/cosmos/cosmos-sdk/types"
 	"golang.org/x/crypto/blake2b"
@@ -194,4 +199,154 @@ func (a *App) ProjectData(ctx sdk.Context) (*DataState, *Notes) {
 		}
 	}
 	return d, n
+}
+
+// ---------------------------------------------------------------- data queries (C17)
+
+func (r *runner) dataQueryInstances() []qinst {
+	conn := &baseapp.QueryServiceTestHelper{GRPCQueryRouter: r.app.ba.GRPCQueryRouter(), Ctx: r.app.Ctx()}
+	dq := data.NewQueryClient(conn)
+	var out []qinst
+	add := func(q, arg string, fn pageFn) { out = append(out, qinst{q, arg, fn}) }
+	attItems := func(as []*data.AttestationInfo) []string {
+		var o []string
+		for _, a := range as {
+			o = append(o, abstractIRI(a.Iri)+"|"+NameOfBech32(a.Attestor))
+		}
+		return o
+	}
+	resItems := func(rs []*data.ResolverInfo) []string {
+		var o []string
+		for _, x := range rs {
+			o = append(o, fmt.Sprint(x.Id))
+		}
+		return o
+	}
+	for _, a := range []string{"a1", "a2", "a3"} {
+		a := a
+		add("AttestationsByAttestor", a, func(c context.Context, pr *query.PageRequest) ([]string, *query.PageResponse, error) {
+			res, err := dq.AttestationsByAttestor(c, &data.QueryAttestationsByAttestorRequest{Attestor: AddrStr(a), Pagination: pr})
+			if err != nil {
+				return nil, nil, err
+			}
+			return attItems(res.Attestations), res.Pagination, nil
+		})
+	}
+	for _, n := range poolNames {
+		n := n
+		add("AttestationsByIRI", n, func(c context.Context, pr *query.PageRequest) ([]string, *query.PageResponse, error) {
+			res, err := dq.AttestationsByIRI(c, &data.QueryAttestationsByIRIRequest{Iri: poolIRI(n), Pagination: pr})
+			if err != nil {
+				return nil, nil, err
+			}
+			return attItems(res.Attestations), res.Pagination, nil
+		})
+		add("AttestationsByHash", n, func(c context.Context, pr *query.PageRequest) ([]string, *query.PageResponse, error) {
+			res, err := dq.AttestationsByHash(c, &data.QueryAttestationsByHashRequest{ContentHash: poolHash(n), Pagination: pr})
+			if err != nil {
+				return nil, nil, err
+			}
+			return attItems(res.Attestations), res.Pagination, nil
+		})
+		add("ResolversByIRI", n, func(c context.Context, pr *query.PageRequest) ([]string, *query.PageResponse, error) {
+			res, err := dq.ResolversByIRI(c, &data.QueryResolversByIRIRequest{Iri: poolIRI(n), Pagination: pr})
+			if err != nil {
+				return nil, nil, err
+			}
+			return resItems(res.Resolvers), res.Pagination, nil
+		})
+		add("ResolversByHash", n, func(c context.Context, pr *query.PageRequest) ([]string, *query.PageResponse, error) {
+			res, err := dq.ResolversByHash(c, &data.QueryResolversByHashRequest{ContentHash: poolHash(n), Pagination: pr})
+			if err != nil {
+				return nil, nil, err
+			}
+			return resItems(res.Resolvers), res.Pagination, nil
+		})
+	}
+	for _, u := range []string{"https://r1", "https://r2", "https://zz"} {
+		u := u
+		add("ResolversByURL", u, func(c context.Context, pr *query.PageRequest) ([]string, *query.PageResponse, error) {
+			res, err := dq.ResolversByURL(c, &data.QueryResolversByURLRequest{Url: u, Pagination: pr})
+			if err != nil {
+				return nil, nil, err
+			}
+			return resItems(res.Resolvers), res.Pagination, nil
+		})
+	}
+	return out
+}
+
+func (r *runner) dataQueries(ob M, budget int, ds *DataState) {
+	rng := rand.New(rand.NewSource(r.b.Seed*131 + int64(len(r.lines))))
+	insts := r.dataQueryInstances()
+	ctx := context.Background()
+	results := []any{}
+	limits := []int{1, 2, 3, 100}
+	for k := 0; k < budget && len(insts) > 0; k++ {
+		in := insts[rng.Intn(len(insts))]
+		mode := []string{"key", "offset", "key", "offset", "nil", "offset0", "keynolimit", "reverse"}[rng.Intn(8)]
+		results = append(results, walkPages(ctx, in, mode, limits[rng.Intn(len(limits))]))
+	}
+	ob["lists"] = results
+	// single-entity queries
+	conn := &baseapp.QueryServiceTestHelper{GRPCQueryRouter: r.app.ba.GRPCQueryRouter(), Ctx: r.app.Ctx()}
+	dq := data.NewQueryClient(conn)
+	singles := []any{}
+	for _, x := range ds.Ids {
+		n := x["iri"].(string)
+		if _, ok := iriToName[poolIRISafe(n)]; !ok {
+			continue
+		}
+		for _, by := range []string{"AnchorByIRI", "AnchorByHash"} {
+			var a *data.AnchorInfo
+			var err error
+			if by == "AnchorByIRI" {
+				var res *data.QueryAnchorByIRIResponse
+				res, err = dq.AnchorByIRI(ctx, &data.QueryAnchorByIRIRequest{Iri: poolIRI(n)})
+				if err == nil {
+					a = res.Anchor
+				}
+			} else {
+				var res *data.QueryAnchorByHashResponse
+				res, err = dq.AnchorByHash(ctx, &data.QueryAnchorByHashRequest{ContentHash: poolHash(n)})
+				if err == nil {
+					a = res.Anchor
+				}
+			}
+			if err != nil || a == nil {
+				singles = append(singles, M{"q": by, "iri": n, "err": true, "riri": "", "t": 0})
+				continue
+			}
+			t := -999
+			if tm, e := gogotypes.TimestampFromProto(a.Timestamp); e == nil {
+				t, _ = TimeTick(tm)
+			}
+			singles = append(singles, M{"q": by, "iri": n, "err": false, "riri": abstractIRI(a.Iri), "t": t})
+		}
+	}
+	for _, x := range ds.Resolvers {
+		res, err := dq.Resolver(ctx, &data.QueryResolverRequest{Id: x["id"].(uint64)})
+		if err != nil {
+			singles = append(singles, M{"q": "Resolver", "id": x["id"], "err": true, "url": "", "manager": ""})
+			continue
+		}
+		mgr := NameOfBech32(res.Resolver.Manager)
+		if res.Resolver.Manager == "" || x["manager"] == "" && len(res.Resolver.Manager) > 0 && mgr != "" {
+			// a public resolver has no manager; the query renders the empty address
+			if x["manager"] == "" {
+				mgr = ""
+			}
+		}
+		singles = append(singles, M{"q": "Resolver", "id": x["id"], "err": false, "url": res.Resolver.Url, "manager": mgr})
+	}
+	ob["singles"] = singles
+}
+
+func poolIRISafe(name string) string {
+	for _, n := range poolNames {
+		if n == name {
+			return poolIRI(n)
+		}
+	}
+	return ""
 }
